@@ -10,6 +10,7 @@ use core::marker::PhantomData;
 use core::fmt::Debug;
 pub type StepSizeStrategy = Strategy;
 
+#[derive(Debug)]
 pub struct NutsError { pub code: u64 }
 pub enum Either<L, R> { Left(L), Right(R) }
 
